@@ -27,6 +27,7 @@ func init() {
 		},
 		Run: run,
 		Assumptions: []string{
+			"every case also constructs a second ScopeMiddleware (with its own, differently numbered configured middlewares) and a second Handle with opposite options on another route group of the same engine, after the instance under test: configuration is per instance, so their middlewares must never run for requests through the instance under test",
 			"go-chi is not in the module cache: godi's chi middleware is driven as plain func(http.Handler) http.Handler over net/http's ServeMux",
 			"echo/v4/middleware is not in the module cache: a 6-line recover middleware of the harness plays its role",
 			"'closed exactly once' is read as disposed exactly once: every scoped disposable gets exactly one Close event and Get on the scope Is ErrScopeDisposed; Close() being invoked twice (fiber + fasthttp closing io.Closer locals, context watcher) is not a violation",
